@@ -77,15 +77,22 @@ def cident(s):
 
 
 def fn_cname(qualname, params, is_const):
-    m = re.match(r"(.*?)operator\s*(\(\)|\[\]|[^A-Za-z0-9_\s(]+)$", qualname)
-    if m and m.group(2) in OPNAMES:
-        base = cident(m.group(1)) + "_op_" + OPNAMES[m.group(2)]
-    else:
-        m2 = re.match(r"(.*?)operator\s+(.+)$", qualname)
-        if m2:
-            base = cident(m2.group(1)) + "_conv_" + cident(m2.group(2))
-        else:
-            base = cident(qualname)
+    base = None
+    i = qualname.rfind("operator")
+    if i >= 0 and (i == 0 or qualname[i - 1] in ": ") :
+        rest = qualname[i + 8:].strip()
+        for tok in sorted(OPNAMES, key=len, reverse=True):
+            if rest.startswith(tok):
+                tail = rest[len(tok):]
+                if tail == "" or tail.startswith("<"):
+                    # '<' after the token is a template argument list, unless the token itself could be longer
+                    base = cident(qualname[:i]) + "_op_" + OPNAMES[tok] + ("_" + cident(tail) if tail else "")
+                    break
+        if base is None and rest and (rest[0].isalpha() or rest[0] == "_"):
+            base = cident(qualname[:i]) + "_conv_" + cident(rest)
+    if base is None:
+        base = cident(qualname)
+    base = base.strip("_")
     ps = "__".join(cident(p) for p in params)
     name = base + ("__" + ps if ps else "")
     if is_const:
@@ -525,7 +532,7 @@ class Emitter:
             raise Unsupported("function %s has no body in the AST" % self.ast.qual.get(canon, canon))
         q, ps, c = self.ast.func_key(n)
         cname = fn_cname(q, ps, c)
-        if cname in self.fn_proto:
+        if cname in self.fn_done.values():
             cname += "_" + hashlib.sha1(n.get("mangledName", canon).encode()).hexdigest()[:6]
         self.fn_done[canon] = cname
         self.queue.append(canon)
@@ -596,20 +603,28 @@ class Emitter:
         self.may_throw = mt
 
     # ---------------- output ----------------
-    def output(self, header_comment=""):
+    def output(self, header_comment="", hname=None):
+        """returns (header_text, body_text): structs + prototypes, and function bodies"""
         out = []
         out.append("/* GENERATED by /verif/vf/cxx2c.py from clang's AST of the real sources - do not edit.\n%s */\n" % header_comment)
+        guard = "CXX2C_" + re.sub(r"[^A-Za-z0-9]", "_", hname or "H").upper()
+        out.append("#ifndef %s\n#define %s" % (guard, guard))
         out.append('#include "cxx2c_rt.h"\n')
         for s in self.struct_order:
             out.append("struct %s;" % s)
         out.append("")
         for s in self.struct_order:
             out.append(self.structs[s])
-        for g, (cn, txt) in self.globals.items():
-            out.append(txt)
         out.append("")
         for f in self.fn_order:
             out.append(self.fn_proto[f] + ";")
+        out.append("#endif\n")
+        header = "\n".join(out)
+        out = []
+        if hname:
+            out.append('#include "%s"\n' % hname)
+        for g, (cn, txt) in self.globals.items():
+            out.append(txt)
         out.append("")
         # second pass: throw checks need may_throw, which is only known now
         for f in self.fn_order:
@@ -619,7 +634,7 @@ class Emitter:
                        t)
             out.append("/* %s  [%s:%s] */" % (self.fn_src[f]["key"], os.path.basename(str(self.fn_src[f]["file"] or "")), self.fn_src[f]["line"]))
             out.append(t)
-        return "\n".join(out)
+        return header, "\n".join(out)
 
 
 def order_structs(em):
@@ -1615,7 +1630,7 @@ if __name__ == "__main__":
                 print(k)
         sys.exit(0)
     em, names = extract(a.driver, a.f, a.I)
-    print(em.output())
+    print("\n".join(em.output()))
     for w, n in names.items():
         print("// %s -> %s" % (w, n), file=sys.stderr)
 
@@ -1679,8 +1694,7 @@ def make_shims(em, cnames=None):
         elif em.is_ref(rt):
             stmt = "*(const void **)r = (const void *)&(%s);" % call
         else:
-            base = re.sub(r"^const\s+", "", rt)
-            stmt = "{ %s _v = %s; std::memcpy(r, &_v, sizeof(_v)); }" % (base, call)
+            stmt = "{ auto _v = %s; std::memcpy(r, (const void *)&_v, sizeof(_v)); }" % (call,)
         body.append("  cxx2c_thrown_real = 0;")
         body.append("  try { %s }" % stmt)
         for ex, code in EXC_CATCH:
